@@ -45,6 +45,7 @@ struct Rec {
     i: u64,
     parse_fail: Map<String, Value>,
     events: Map<String, Value>,
+    n_hdr: usize,
 }
 
 fn bump(m: &mut Map<String, Value>, k: &str) {
@@ -327,6 +328,27 @@ fn record_provider(rec: &mut Rec, font: &str, prov: &dyn FontTableProvider) {
     }
     if let Some(d) = get(tag::CFF) {
         record_cff(rec, font, &d, json!({"src": "font"}));
+        // the same font with a header longer than its four fields (valid, rare: no repository font has one).  The
+        // table is first brought into the form with five-byte offsets (allsorts' own output), then laid out again
+        // by the harness: hdrSize and every absolute offset grow by the number of bytes inserted.
+        let n = rec.n_hdr;
+        rec.n_hdr += 1;
+        let pads: [&[u8]; 6] = [&[0], &[0, 0], &[0, 0, 0, 0], &[255, 255], &[0, 1, 1, 1, 2, 65], &[0u8; 251]];
+        let pad = pads[n % pads.len()];
+        let relaid = guarded(|| {
+            let t = ReadScope::new(&d).read::<CFF<'_>>().ok()?;
+            let b1 = wv(|w| CFF::write(w, &t)).ok()?;
+            cff_longer_header(&b1, pad)
+        });
+        match relaid {
+            Outcome::Returned(Some(r)) => {
+                rec.cycle("cff", &format!("{}@hdr{}", font, 4 + pad.len()), &r, true, json!({"src": "font", "hdr": 4 + pad.len()}), &|b| {
+                    let t = ReadScope::new(b).read::<CFF<'_>>().map_err(pe)?;
+                    Ok((cff_proj(&t), wg(|w| CFF::write(w, &t))))
+                });
+            }
+            _ => bump(&mut rec.parse_fail, "cffhdr:not-relaid"),
+        }
     }
     if let Some(d) = get(tag::CFF2) {
         rec.cycle("cff2", font, &d, true, json!({}), &|b| {
@@ -498,7 +520,7 @@ fn record_glyf(rec: &mut Rec, font: &str, gd: &[u8], ld: &[u8], ng: usize, fmt: 
 }
 
 pub fn record(trace: &str) {
-    let mut rec = Rec { w: NdWriter::create(trace), i: 0, parse_fail: Map::new(), events: Map::new() };
+    let mut rec = Rec { w: NdWriter::create(trace), i: 0, parse_fail: Map::new(), events: Map::new(), n_hdr: 0 };
     let root = repo_root();
     let mut nfonts = 0;
     for path in repo_fonts() {
@@ -579,6 +601,24 @@ pub fn record(trace: &str) {
         variants.push((Box::leak(format!("topdict-{}-neighbours", total).into_boxed_str()),
                        MiniCff { top_extra: filler(total - 17), gsubrs: 3, strings: vec![b"Verif".to_vec(), b"C15 Full Name".to_vec()], ..Default::default() }));
     }
+    // headers longer than the four defined fields (hdrSize 5 .. 255), other minor versions and offSize values,
+    // next to every structure the Top DICT locates by an absolute offset
+    let lh = |pad: &[u8], v: MiniCff| MiniCff { hdr_pad: pad.to_vec(), ..v };
+    let nb = MiniCff { gsubrs: 3, strings: vec![b"Verif".to_vec(), b"C15 Full Name".to_vec()], ..Default::default() };
+    variants.push(("header-5", lh(&[0], nb.clone())));
+    variants.push(("header-6-reads-as-empty-index", lh(&[0, 0], nb.clone())));
+    variants.push(("header-8", lh(&[255, 255, 255, 255], nb.clone())));
+    variants.push(("header-10-reads-as-index", lh(&[0, 1, 1, 1, 2, 65], nb.clone())));
+    variants.push(("header-255", lh(&[0u8; 251], nb.clone())));
+    variants.push(("header-6-charset", lh(&[0, 0], MiniCff { glyphs: 3, custom_charset: Some(t3(1)), ..nb.clone() })));
+    variants.push(("header-6-encoding", lh(&[0, 0], MiniCff { glyphs: 3, custom_encoding: Some(vec![1, 1, 65, 1]), ..nb.clone() })));
+    variants.push(("header-5-localsubrs", lh(&[9], MiniCff { local_subrs: Some(vec![vec![11], vec![1, 2, 11]]), ..nb.clone() })));
+    variants.push(("header-6-topdict-254", lh(&[0, 0], MiniCff { top_extra: filler(254 - 17), ..nb.clone() })));
+    variants.push(("header-6-topdict-255", lh(&[0, 0], MiniCff { top_extra: filler(255 - 17), ..nb.clone() })));
+    variants.push(("header-minor-1", MiniCff { hdr_minor: 1, ..nb.clone() }));
+    variants.push(("header-minor-255-offsize-4", MiniCff { hdr_minor: 255, hdr_off_size: 4, ..nb.clone() }));
+    variants.push(("header-offsize-2", MiniCff { hdr_off_size: 2, ..nb.clone() }));
+    variants.push(("header-offsize-3-header-7", lh(&[1, 2, 3], MiniCff { hdr_off_size: 3, ..nb.clone() })));
     for (name, v) in variants {
         let d = mini_cff(&v);
         let font = format!("synthetic/{}", name);
